@@ -143,7 +143,7 @@ func runS1(c *core.Ctx) {
 			switch {
 			case !ok || h == "" || h == "nil":
 				c.Bad("jitdec._OpFuncTab/"+op.Name(), op.Pos(), "opcode %s has no handler row in jitdec._OpFuncTab", op.Name())
-			case h != "_asm"+op.Name():
+			case h != "_asm"+op.Name() && handlerNameExceptions[strings.TrimPrefix(h, "_asm")] != op.Name():
 				c.Bad("jitdec._OpFuncTab/"+op.Name(), jpos[op], "row %s dispatches to %s, expected _asm%s", op.Name(), h, op.Name())
 			default:
 				c.OK("jitdec._OpFuncTab/"+op.Name(), jpos[op], "-> %s", h)
